@@ -997,6 +997,9 @@ void apply_logic_net(bool const *inp, {BITS_TO_DTYPE[32]} *out, size_t len) {{
         if x.ndim < 2 or int(np.prod(x.shape[1:])) != self._get_input_size():
             # the library reads input-size values per sample: anything else would run past the end of x
             raise ValueError(f"expected a batch of samples of {self._get_input_size()} values, got shape {tuple(x.shape)}")
+        if x.dtype == np.bool_:
+            # a bool array made by .view(bool) / frombuffer may hold True bytes other than 1; the library adds the raw byte
+            x = x.view(np.uint8) != 0
         batch_size_div_bits = math.ceil(x.shape[0] / self.num_bits)
         pad_len = batch_size_div_bits * self.num_bits - x.shape[0]
         x = np.concatenate([x, np.zeros((pad_len,) + x.shape[1:], dtype=x.dtype)])
